@@ -58,6 +58,7 @@ func main() {
 	verif := flag.String("verif", "/verif", "verif root")
 	replay := flag.String("replay", "", "replay file: re-evaluate exactly that obligation")
 	dump := flag.Bool("dump", false, "print all obligations")
+	dumpCanonF := flag.String("dump-canon", "", "write the struct layouts of -repo to this file (canonical field table) and exit")
 	asJSON := flag.Bool("json", false, "print the obligations as JSON and nothing else (used by the thorough tier's sub-runs)")
 	tags := flag.String("tags", "", "build tags")
 	dbg := flag.String("trace", "", "debug: print traces of a function (FuncKey)")
@@ -65,6 +66,17 @@ func main() {
 	var muts multiFlag
 	flag.Var(&muts, "mut", "debug/self-test: in-memory mutation 'relpath|old|new' (repeatable); files on disk are not touched")
 	flag.Parse()
+	if *dumpCanonF != "" {
+		p, err := LoadProgram(*repo, nil, nil, "")
+		if err == nil {
+			err = dumpCanon(p, *dumpCanonF)
+		}
+		if err != nil {
+			fmt.Println(err)
+			os.Exit(2)
+		}
+		return
+	}
 	overlay, err := buildOverlay(*repo, muts)
 	if err == nil && *ovDir != "" {
 		if overlay == nil {
